@@ -32,11 +32,21 @@ def run(ctx):
                        expect_violation="PinnedPreserved")
         if r["violated"] != "PinnedPreserved":
             ctx.broken("as-built write order (Dev_C23_RepinDeleteFirst) should violate PinnedPreserved, TLC says %s" % r["violated"])
+        r = ctx.tlc_mc("Pinner", "PinnerWrites.tla", "MCPinnerWritesDevEarly.cfg", timeout=1200, deadlock=False,
+                       expect_violation="DirtyCovers")
+        if r["violated"] not in ("DirtyCovers", "IndexesAgree"):
+            ctx.broken("as-built recovery (Dev_C23_RebuildCleansEarly) should violate DirtyCovers, TLC says %s" % r["violated"])
     binp = ctx.go_build("pinning/pinner/dspinner", ["pinning/pinner/dspinner/zz_verif_C23_test.go"])
     env = {"C23_HIST": 3 if q else 12, "C23_LEN": 6 if q else 8, "C23_SECOND": 0 if q else 1}
     recs, out, rc = ctx.go_run(binp, "TestVerifC23", pkg="pinning/pinner/dspinner", mode="record", env=env, timeout=1800)
     if rc != 0 or not recs:
         ctx.broken("record driver died: " + out[-1500:])
+        return
+    # more records than rebuildIndexes checks between two flushes (50): 100 pins + one cut pin, recovery cut at every write
+    big, out, rc = ctx.go_run(binp, "TestVerifC23", pkg="pinning/pinner/dspinner", mode="record",
+                              env={"C23_BIG": 2 if q else 5, "C23_BIGPINS": 100}, timeout=1800)
+    if rc != 0 or not big:
+        ctx.broken("record driver (big) died: " + out[-1500:])
         return
     # split into chunks at Reset boundaries (keeps each TLC run short)
     chunks, cur = [], []
@@ -46,6 +56,7 @@ def run(ctx):
             cur = []
         cur.append(r_)
     chunks.append(cur)
+    chunks.append(big)
     # non-trivial runs
     run_, crash_in_op = [], 0
     for r_ in recs + [{"ev": "Reset"}]:
